@@ -427,4 +427,165 @@ theorem reindent_preserves_sig (cfg : RCfg) (fuel : Nat) (st : RSt) (last : Opti
     · simp only [Except.ok.injEq, Prod.mk.injEq] at h
       rw [← h.1, hp]
 
+/-! ## `AlignedIndentFilter` -/
+
+def ARecPreserves (rec : ARec) : Prop := ∀ s n n' s', rec s n = .ok (n', s') → sigToks n'.leaves = sigToks n.leaves
+
+theorem aEmitKwd_sig (ch : Text) (st : ASt) (done : List FNode) (k : FNode) :
+    sigL (aEmitKwd ch st done k).reverse = sigL done.reverse ++ sigToks k.leaves := by
+  unfold aEmitKwd
+  simp [sigL_append, sigL_cons, sigL_nil, sig_aNlStr]
+
+theorem sigL_aSplitKwds (ch : Text) (st : ASt) (ks : List FNode) : sigL (aSplitKwds ch st ks) = sigL ks := by
+  unfold aSplitKwds
+  rw [sigL_splitKwdsGo _ _ (aEmitKwd_sig ch st) ks 0 []]
+  simp [sigL_nil]
+
+theorem sigL_aKidsGo (rec : ARec) (hrec : ARecPreserves rec) : ∀ (rest done : List FNode) (st : ASt) (ks' : List FNode) (st' : ASt),
+    aKidsGo rec st done rest = .ok (ks', st') → sigL ks' = sigL done.reverse ++ sigL rest
+  | [], done, st, ks', st', h => by
+    simp only [aKidsGo, Except.ok.injEq, Prod.mk.injEq] at h
+    rw [← h.1]; simp [sigL_nil]
+  | k :: rest, done, st, ks', st', h => by
+    unfold aKidsGo at h
+    by_cases hg : k.isGroup = true
+    · rw [if_pos hg] at h
+      simp only at h
+      split at h
+      · cases h
+      · rename_i k' st1 hk
+        rw [sigL_aKidsGo rec hrec rest _ _ _ _ h, sigL_reverse_cons, hrec _ _ _ _ hk, sigL_cons, List.append_assoc]
+    · rw [if_neg hg] at h
+      rw [sigL_aKidsGo rec hrec rest _ _ _ _ h, sigL_reverse_cons, sigL_cons, List.append_assoc]
+
+theorem sigL_aDefault (ch : Text) (rec : ARec) (hrec : ARecPreserves rec) (st : ASt) (ks ks' : List FNode) (st' : ASt)
+    (h : aDefault ch rec st ks = .ok (ks', st')) : sigL ks' = sigL ks := by
+  unfold aDefault at h
+  rw [sigL_aKidsGo rec hrec _ _ _ _ _ h, sigL_aSplitKwds]
+  simp [sigL_nil]
+
+theorem sigL_aParenthesis (ch : Text) (rec : ARec) (hrec : ARecPreserves rec) (st : ASt) (ks ks' : List FNode) (st' : ASt)
+    (h : aParenthesis ch rec st ks = .ok (ks', st')) : sigL ks' = sigL ks := by
+  unfold aParenthesis at h
+  split at h
+  · simp only at h
+    split at h
+    · cases h
+    · rename_i a b hd
+      simp only [Except.ok.injEq, Prod.mk.injEq] at h
+      rw [← h.1, sigL_insertAt _ _ _ (sig_aNl ch _ _), sigL_aDefault ch rec hrec _ _ _ _ hd,
+        sigL_insertAfterIdx _ _ _ (sig_aNlStr ch _ _)]
+  · simp only [Except.ok.injEq, Prod.mk.injEq] at h; rw [← h.1]
+
+theorem sigL_aBreakIdentifiers (nl : FNode) (hnl : sigToks nl.leaves = []) : ∀ (ks : List FNode) (b : Bool),
+    sigL (aBreakIdentifiers nl b ks) = sigL ks
+  | [], b => rfl
+  | k :: rest, b => by
+    unfold aBreakIdentifiers
+    split
+    · split
+      · rw [sigL_cons, hnl, List.nil_append, sigL_cons, sigL_cons, sigL_aBreakIdentifiers nl hnl rest]
+      · rw [sigL_cons, sigL_cons, sigL_aBreakIdentifiers nl hnl rest]
+    · rw [sigL_cons, sigL_cons, sigL_aBreakIdentifiers nl hnl rest]
+
+theorem sigL_aIdentifierList (ch : Text) (rec : ARec) (hrec : ARecPreserves rec) (st : ASt) (ks ks' : List FNode) (st' : ASt)
+    (h : aIdentifierList ch rec st ks = .ok (ks', st')) : sigL ks' = sigL ks := by
+  unfold aIdentifierList at h
+  split at h
+  · rw [sigL_aDefault ch rec hrec _ _ _ _ h, sigL_aBreakIdentifiers _ (sig_aNl ch st _)]
+  · cases h
+
+theorem sigTL_aCaseLoop (ch : Text) (st : ASt) (maxW : Nat) : ∀ (items : List (Option TL × Option (Nat × FNode))) (i : Nat) (tl tl' : TL),
+    aCaseLoop ch st maxW i tl items = .ok tl' → sigL (untag tl') = sigL (untag tl)
+  | [], i, tl, tl', h => by simp only [aCaseLoop, Except.ok.injEq] at h; rw [h]
+  | (cond, stmt) :: rest, i, tl, tl', h => by
+    unfold aCaseLoop at h
+    simp only at h
+    split at h
+    · cases h
+    · rename_i tl1 htl1
+      have h1 : sigL (untag tl1) = sigL (untag tl) := by
+        split at htl1
+        · split at htl1
+          · cases htl1
+          · split at htl1
+            · cases htl1
+            · simp only [Except.ok.injEq] at htl1
+              rw [← htl1, sigTL_insertAt _ _ _ (sig_aNl ch st _)]
+        · simp only [Except.ok.injEq] at htl1; rw [htl1]
+      split at h
+      · split at h
+        · cases h
+        · rw [sigTL_aCaseLoop ch st maxW rest _ _ _ h, sigTL_insertAfterIdx _ _ _ (sig_wsLeaf _), h1]
+      · rw [sigTL_aCaseLoop ch st maxW rest _ _ _ h, h1]
+
+
+theorem sigL_aCase (ch : Text) (st : ASt) (ks ks' : List FNode) (st' : ASt)
+    (h : aCase ch st ks = .ok (ks', st')) : sigL ks' = sigL ks := by
+  unfold aCase at h
+  simp only at h
+  split at h
+  · cases h
+  · split at h
+    · cases h
+    · rename_i items _
+      cases hl : aCaseLoop ch st _ 0 (tagAll ks) items with
+      | error e => rw [hl] at h; cases h
+      | ok tl' =>
+        rw [hl] at h
+        simp only [Except.map, Except.ok.injEq, Prod.mk.injEq] at h
+        rw [← h.1, sigTL_aCaseLoop ch st _ _ _ _ _ hl, untag_tagAll]
+
+theorem sigL_aDispatch (ch : Text) (rec : ARec) (hrec : ARecPreserves rec) (c : Cls) (st : ASt) (ks ks' : List FNode) (st' : ASt)
+    (h : aDispatch ch rec c st ks = .ok (ks', st')) : sigL ks' = sigL ks := by
+  unfold aDispatch at h
+  split at h
+  · exact sigL_aParenthesis ch rec hrec _ _ _ _ h
+  · exact sigL_aIdentifierList ch rec hrec _ _ _ _ h
+  · exact sigL_aCase ch _ _ _ _ h
+  · exact sigL_aDefault ch rec hrec _ _ _ _ h
+
+theorem aProcess_preserves (ch : Text) : ∀ (fuel : Nat), ARecPreserves (fun s n => aProcess ch fuel s n)
+  | fuel, s, .tok tt v, n', s', h => by
+    cases fuel <;> (simp only [aProcess, Except.ok.injEq, Prod.mk.injEq] at h; rw [← h.1])
+  | 0, s, .grp c cv ks, n', s', h => by simp [aProcess] at h
+  | fuel+1, s, .grp c cv ks, n', s', h => by
+    unfold aProcess at h
+    dsimp only at h
+    split at h
+    · -- Statement: optional pop of a leading whitespace token, one more `_process` level
+      cases fuel with
+      | zero => simp at h
+      | succ fuel' =>
+        simp only at h
+        split at h
+        · cases h
+        · rename_i r hr
+          simp only [Except.ok.injEq, Prod.mk.injEq] at h
+          rw [← h.1]
+          show sigL _ = sigL ks
+          rw [sigL_aDefault ch _ (aProcess_preserves ch fuel') _ _ _ _ hr]
+          split
+          · rename_i k rest
+            split
+            · rename_i hw
+              simp only [Bool.and_eq_true] at hw
+              rw [sigL_cons, sig_ws k hw.1, List.nil_append]
+            · rfl
+          · rfl
+    · split at h
+      · cases h
+      · rename_i r hr
+        simp only [Except.ok.injEq, Prod.mk.injEq] at h
+        rw [← h.1]
+        show sigL _ = sigL ks
+        exact sigL_aDispatch ch _ (aProcess_preserves ch fuel) _ _ _ _ _ hr
+
+/-- C06 for `reindent_aligned`: `AlignedIndentFilter.process` changes nothing but whitespace — every indent character,
+every filter state, every fuel, every tree on which it does not raise -/
+theorem aligned_preserves_sig (ch : Text) (fuel : Nat) (st : ASt) (n n' : FNode) (st' : ASt)
+    (h : alignedProcess ch fuel st n = .ok (n', st')) : sigToks n'.leaves = sigToks n.leaves :=
+  aProcess_preserves ch fuel st n n' st' h
+
+
 end Sql
